@@ -98,6 +98,8 @@ struct ListInfo
     static constexpr bool ALL_TRIVIAL = (is_trivial_value_v<typename PInfo<P>::T> && ...);
     static constexpr bool ANY_TRACKED = (is_tracked_v<typename PInfo<P>::T> || ...);
     static constexpr bool ANY_ALIGNED = AMAX > 1;
+    // std::unique_ptr compares by identity, not by the value it holds: content-based comparison oracles do not apply
+    static constexpr bool COMPARES_BY_VALUE = (!std::is_same_v<typename PInfo<P>::T, std::unique_ptr<int>> && ...);
     // D13: reference assignment / swap are only offered for lists whose VaryingSize value types are trivially
     // assignable and swappable (ParameterTraits<VaryingSize<...>> has no copy/move/swap members by design)
     static constexpr bool REF_ASSIGNABLE = []
